@@ -398,7 +398,7 @@ def check():
 
     o.samples = [{"harness": h, "verdict": r["verdict"]} for h, r in kres.items()] + \
                 [{"query": q["name"], "verdict": q["verdict"]} for q in o.queries if q["engine"].startswith("mirsym")][:10]
-    if bad or thorough or os.environ.get("VERIF_REPLAY_ALWAYS"):
+    if True:   # the real-binary oracle is cheap: always run it (replay of a failing lemma, or translator validation)
         probs, rdir, detail = run_corpus()
         o.extra["real_cli_corpus"] = detail
         if bad:
